@@ -70,6 +70,12 @@ CHECKS = {
    text="All message sequences of total length<=3 (quick) / <=4 (thorough) over an 18-symbol alphabet on two sessions and random sequences up to 14 messages on three: parameter combinations, election ids, stamped/unstamped operations, multi-field and empty messages, half-closes. Each violation must end exactly that RPC with a code and ModifyRPCErrorDetails reason from the acceptable set; afterwards Get, held operations, counters, election id/primary and the other streams must be untouched, the session footprint must equal the open sessions and later sessions proceed normally.",
    note="Trusted: the status table transcribed from gribi.proto comments and compliance expectations (sets where several statuses are acceptable); the tolerance for parameters checked against a not-yet-negotiated peer.",
    design="DESIGN.md §4 C09"),
+ "C12": dict(
+   technique="property-based testing with constructed invalid classes and structural protobuf mutation of valid operations, before/after state comparison and a twin-RIB panic screen",
+   level="exploration",
+   text="A server pre-loaded with a generated RIB and a second idle session receives one message: every constructed invalid class, 1-3 structural mutations (undefined enum numbers, cleared sub-messages, duplicated list keys, invalid UTF-8, boundary integers, junk strings) of valid full-field operations, or a malformed Get/Flush. The operation is first applied to a twin RIB under recover (a panic there is a violation with the case), then sent through the server: exactly one in-band result or a clean RPC error on that session only; the idle session sees nothing and afterwards wins an election and programs an entry; rejected operations leave contents, held set and counters identical, accepted mutants change only their own key and keep counters and Get consistent.",
+   note="Trusted: classification of the constructed classes as invalid (from the property text); the in-process stream (delivers messages gRPC's codec would refuse). A crash of the test process is reported by the driver as a violation with the in-flight case.",
+   design="DESIGN.md §4 C12"),
 }
 NOT_YET = {}
 
